@@ -253,6 +253,26 @@ class Gen:
                 self.w('reg_tmr %s %d %s u%d' % (m['tok'], ns, fl, r.randrange(1, 9)))
             else:
                 self.w('dereg_tmr %s %d' % (m['tok'], ns))
+        elif a == 'src2':
+            # signal, pid, path and threshold sources: registry behaviour only (they never fire here)
+            m = self.pick()
+            if not m: return
+            fl = ''.join(f for f, p in (('o', .2), ('h', .15), ('l', .1)) if r.random() < p) or '-'
+            k = r.choice(['sgn', 'sgn', 'pid', 'path', 'thr'])
+            reg = r.random() < 0.6
+            if k == 'sgn':
+                n = r.choice([10, 12, 34, 35, 0])
+                self.w(('reg_sgn %s %d %s u%d' % (m['tok'], n, fl, r.randrange(1, 9))) if reg else ('dereg_sgn %s %d' % (m['tok'], n)))
+            elif k == 'pid':
+                n = r.choice([1, 2, 3, 0])
+                self.w(('reg_pid %s %d %s u%d' % (m['tok'], n, fl, r.randrange(1, 9))) if reg else ('dereg_pid %s %d' % (m['tok'], n)))
+            elif k == 'path':
+                n = r.choice([1, 2, 3, 0])
+                if reg and r.random() < 0.3: fl = fl.replace('-', '') + 'd'
+                self.w(('reg_path %s %d %s u%d' % (m['tok'], n, fl, r.randrange(1, 9))) if reg else ('dereg_path %s %d' % (m['tok'], n)))
+            else:
+                a, b = r.choice([(1, 0), (0, 1), (1, 1), (2, 1), (1, 2), (0, 0), (3, 0)])
+                self.w(('reg_thr %s %d %d %s u%d' % (m['tok'], a, b, fl, r.randrange(1, 9))) if reg else ('dereg_thr %s %d %d' % (m['tok'], a, b)))
         elif a == 'srclen':
             m = self.pick()
             if m: self.w('srclen %s' % m['tok'])
